@@ -20,6 +20,7 @@ DTS = ["int8", "int16", "int32", "int64", "uint8", "uint16", "uint32", "uint64",
 FLOOR_TAGS = ["b:%d" % b for b in BITS] + ["len:multiple", "len:multiple+1", "len:multiple-1", "len:<register", "w:1", "w:full", "w:mid", "style:rand", "style:ones", "style:alt",
                                            "straddle", "twin", "wtype:numpy", "w*b:54..63"]
 FLOOR_MONITORS = ["c13:unpack", "c13:getint", "c13:getlist", "c13:window", "c13:unpack-again"]
+FP_STRICT = True       # a floating-point event inside the library that the dense computation does not have is a violation (shard.FpMonitor)
 N_RANDOM = {"quick": 24000, "thorough": 200000}
 
 
